@@ -615,7 +615,12 @@ static int vf_between_calls(void)
 		char *tmp = vf_userbuf[vf_userbuf_n++];
 		yybuffer h, before = VF_CUR();
 		memcpy(tmp, vf_contents[ci].d, (size_t)nn);
-		if (op == OP_SCANBUF) { tmp[nn] = 0; tmp[nn + 1] = 0; } else { tmp[nn] = 0; tmp[nn + 1] = 'x'; }
+		if (op == OP_SCANBUF) { tmp[nn] = 0; tmp[nn + 1] = 0; }
+		else {
+			/* not "the last two bytes are NUL": either one wrong, or both (round-5 seed C11-r5m3) */
+			int bad = vf_choose(3, VF_K_ARG);
+			tmp[nn] = bad == 0 ? 0 : 'x'; tmp[nn + 1] = bad == 1 ? 0 : 'y';
+		}
 		vf_log(op == OP_SCANBUF ? "SU%d " : "SX%d ", ci, 0);
 		h = yy_scan_buffer(tmp, (size_t)nn + 2 VF_S1);
 		if (op == OP_SCANBAD) {
